@@ -279,4 +279,68 @@ theorem rank2_le (s : St) (hQ : QC s) : rank2 s ≤ 32 * (s.maxQ + (s.pending - 
   have := hQ.1
   simp only [rank2]; omega
 
+/-! ### without the quiet-environment hypothesis: every record committed and every ticket issued on the way costs at most
+    64 more worker transitions -/
+
+theorem other_step3 (s s' : St) (a : Act) (ha : isW a = false) (h : step s a = some s') :
+    (s'.head = s.head ∧ s'.pending = s.pending) ∨ (s'.head = s.head + 1 ∧ s'.pending = s.pending) ∨
+    (s'.head = s.head ∧ s'.pending = s.pending + 1) := by
+  cases a with
+  | wWake => cases ha
+  | wStep => cases ha
+  | fStep f r =>
+    simp only [step, fStep] at h
+    repeat' split at h
+    all_goals (cases h <;> simp)
+  | sStep i =>
+    simp only [step, sStep] at h
+    repeat' split at h
+    all_goals (cases h <;> simp)
+  | pStep p d =>
+    simp only [step, pStep] at h
+    repeat' split at h
+    all_goals (cases h <;> simp)
+
+theorem rank2_bump (s s' : St) (ht : s'.tail = s.tail) (hn : s'.notified = s.notified)
+    (hb : (s'.head = s.head + 1 ∧ s'.pending = s.pending) ∨ (s'.head = s.head ∧ s'.pending = s.pending + 1))
+    (htl : s.tail ≤ s.head) (hnl : s.notified ≤ s.pending) : rank2 s' ≤ rank2 s + 64 := by
+  have := off_lt s'
+  simp only [rank2, ht, hn]
+  rcases hb with ⟨h1, h2⟩ | ⟨h1, h2⟩ <;> rw [h1, h2] <;> omega
+
+theorem done_of_wcount_noisy (as : List Act) : ∀ (s s' : St), Inv s → QC s → s.isShutdown = true → run s as = some s' →
+    rank2 s + 64 * ((s'.head - s.head) + (s'.pending - s.pending)) ≤ wcount as → s'.wpc = .done := by
+  induction as with
+  | nil =>
+    intro s s' hI _ _ h hr
+    simp [run] at h; subst h
+    exact rank2_zero s hI (by simp [wcount] at hr; omega)
+  | cons a as ih =>
+    intro s s' hI hQ hsd h hr
+    simp only [run] at h
+    split at h
+    · rename_i s1 hs1
+      have hI1 := inv_step s s1 a hI hs1
+      have hQ1 := (step_facts s s1 a hI hQ hs1).2.2.2.2
+      obtain ⟨a1, a2, a3, a4, a5⟩ := quiet_step s s1 a hI hQ hsd hs1
+      obtain ⟨c1, c2⟩ := quiet_run s1 s' as hI1 hQ1 a3 h
+      cases ha : isW a with
+      | true =>
+        obtain ⟨d1, d2, d3⟩ := a4 ha
+        refine ih s1 s' hI1 hQ1 a3 h ?_
+        simp only [wcount, ha, ↓reduceIte] at hr
+        rw [d2, d3]; omega
+      | false =>
+        obtain ⟨b1, b2, _, b4, _, _, _⟩ := other_step s s1 a ha hs1
+        simp only [wcount, ha] at hr
+        rcases other_step3 s s1 a ha hs1 with ⟨e1, e2⟩ | hb
+        · have := a5 ha e1 e2
+          refine ih s1 s' hI1 hQ1 a3 h ?_
+          rw [e1, e2, this]; simp at hr; omega
+        · have hbump := rank2_bump s s1 b4 b2 hb hI.tailLe hI.notLe
+          refine ih s1 s' hI1 hQ1 a3 h ?_
+          simp at hr
+          rcases hb with ⟨e1, e2⟩ | ⟨e1, e2⟩ <;> omega
+    · cases h
+
 end Otel.Batch
